@@ -184,6 +184,6 @@ Theorem nnx_missing_stream_uses_default nm ss st : sassoc nm ss = None -> sassoc
   resolve nm ss = Some default_stream.
 Proof. intros H1 H2. unfold resolve. now rewrite H1, H2. Qed.
 (* reseeding restarts the stream *)
-Theorem nnx_reseed_restarts nm seed ss k c out : sassoc nm ss = Some (Plain k c) ->
-  rstep (mkR ss out) (RReseed nm seed) = Some (mkR (sset nm (Plain (KSeed seed) 0) ss) out).
+Theorem nnx_reseed_restarts nm seed ss k c out sq : sassoc nm ss = Some (Plain k c) ->
+  rstep (mkR ss out sq) (RReseed nm seed) = Some (mkR (sset nm (Plain (KSeed seed) 0) ss) out sq).
 Proof. intros H. unfold rstep. simpl. now rewrite H. Qed.
